@@ -38,6 +38,7 @@ Guided == IsPrefix(rlog', TR) /\ IsPrefix(pub', TP)
 EnvStep ==
   /\ ~done /\ done' = TRUE
   /\ CASE Ev.a \in {"Elect", "TakeOver"} -> DoControllerChange(Ev.args.n)
+       [] Ev.a = "StepDown" -> DoStepDown(Ev.args.n)
        [] Ev.a = "Block" -> DoBlock
        [] Ev.a = "Unblock" -> DoUnblock
        [] Ev.a = "Crash" -> DoCrash(Ev.args.n)
@@ -66,7 +67,7 @@ Running(n) == disp[n].st \in {"run", "pub", "wait"}
 
 Match ==
   /\ Ev.a \notin {"Open", "End"}
-  /\ Ev.a \in {"Elect", "TakeOver", "Block", "Unblock", "Crash", "Start", "Snapshot"} => done
+  /\ Ev.a \in {"Elect", "TakeOver", "StepDown", "Block", "Unblock", "Crash", "Start", "Snapshot"} => done
   /\ rlog = TR /\ pub = TP /\ blocked = Ev.st.blocked
   /\ LET n == Focus IN
      IF Ev.st.up
